@@ -94,7 +94,7 @@ func runC13(c *Ctx) {
 		onSuccess := false
 		if rl != nil && (rl.idx != nil || rl.waitCall != nil) {
 			for k := range rl.sel.States {
-				if timerChan(rl.sel.States[k].Chan, "RetransmitInterval") {
+				if timerChan(rl.sel.States[k].Chan, "RetransmitInterval") || rl.timerChanThroughHelper(rl.sel.States[k].Chan, "RetransmitInterval") {
 					continue
 				}
 				if rl.caseDominates(k, startAt.Block()) {
